@@ -895,3 +895,40 @@ def id_namespace_specs():
                               {"name": "TM1", "targets": [1, 2], "workers": [{"name": "W1", "skills": {"weld": 1.0, "paint": 1.0}, "cost": 2.0}]}],
                     "label": "id-namespace:same-task-name:%s" % (works,)})
     return out
+
+
+def nested_running_specs():
+    """nested products in which something is still running on a part when its assembly is carried somewhere else or out"""
+    out = []
+    # (N1) body > engine in one shop: "fit" (automatic, on the body) ends while "test" (automatic, on the engine) is still running; paint follows the test
+    for fit_w, test_w in ((2.0, 8.0), (3.0, 5.0), (1.0, 3.0)):
+        out.append({"tasks": [{"name": "fit", "work": fit_w, "auto": True}, {"name": "test", "work": test_w, "auto": True}, {"name": "paint", "work": 2.0}], "links": [[1, 2, "FS"]],
+                    "components": [{"name": "body", "tasks": [0], "children": [1], "space": 1.0}, {"name": "engine", "tasks": [1], "space": 1.0}],
+                    "workplaces": [{"name": "shop", "cap": 4.0, "targets": [0, 1], "facilities": [{"name": "bench", "skills": {"fit": 1.0, "test": 1.0}, "cost": 1.0}]}],
+                    "teams": [{"name": "TM0", "targets": [2], "workers": [{"name": "painter", "skills": {"paint": 1.0}, "cost": 1.0}]}], "label": "nested-running:auto-part:%s:%s" % (fit_w, test_w)})
+    # (N2) P with two parts worked side by side in W1, then P is assembled in W3; a block D needs all of W1 afterwards
+    for order in ((0, 1, 2, 3), (0, 3, 1, 2)):
+        comps = [{"name": "P", "tasks": [2], "children": [1, 2], "space": 1.0}, {"name": "Ca", "tasks": [0], "space": 1.0}, {"name": "Cb", "tasks": [1], "space": 1.0}, {"name": "D", "tasks": [3], "space": 2.0}]
+        full = {"TA": 1.0, "TB": 1.0, "TP": 1.0, "TD": 1.0}
+        out.append({"tasks": [{"name": "TA", "work": 3.0, "nf": True}, {"name": "TB", "work": 3.0, "nf": True}, {"name": "TP", "work": 2.0, "nf": True}, {"name": "TD", "work": 4.0, "nf": True}],
+                    "links": [[0, 2, "FS"], [1, 2, "FS"], [2, 3, "FS"]], "components": comps,
+                    "workplaces": [{"name": "W1", "cap": 2.0, "targets": [0, 1, 3], "facilities": [{"name": "F1a", "skills": {"TA": 1.0, "TB": 1.0, "TD": 1.0}, "cost": 1.0}, {"name": "F1b", "skills": {"TA": 1.0, "TB": 1.0, "TD": 1.0}, "cost": 1.0}]},
+                                   {"name": "W3", "cap": 3.0, "targets": [2], "facilities": [{"name": "F3", "skills": {"TP": 1.0}, "cost": 1.0}]}],
+                    "teams": [{"name": "TM0", "targets": [0, 1, 2, 3], "workers": [{"name": "w%d" % i, "skills": dict(full), "fskills": {"F1a": 1.0, "F1b": 1.0, "F3": 1.0}, "cost": 1.0} for i in range(3)]}],
+                    "label": "nested-running:two-parts-then-block:%s" % (order,)})
+    # (N3) the assembly's task may start as soon as the part's task has started (SS): the part is being worked in W1 when the assembly is wanted in W3
+    for kind in ("SS", "FS"):
+        out.append({"tasks": [{"name": "TC", "work": 4.0, "nf": True}, {"name": "TP", "work": 2.0, "nf": True}], "links": [[0, 1, kind]],
+                    "components": [{"name": "P", "tasks": [1], "children": [1], "space": 1.0}, {"name": "C", "tasks": [0], "space": 1.0}],
+                    "workplaces": [{"name": "W1", "cap": 1.0, "targets": [0], "facilities": [{"name": "F1", "skills": {"TC": 1.0}, "cost": 1.0}]},
+                                   {"name": "W3", "cap": 3.0, "targets": [1], "facilities": [{"name": "F3", "skills": {"TP": 1.0}, "cost": 1.0}]}],
+                    "teams": [{"name": "TM0", "targets": [0, 1], "workers": [{"name": "w%d" % i, "skills": {"TC": 1.0, "TP": 1.0}, "fskills": {"F1": 1.0, "F3": 1.0}, "cost": 1.0} for i in range(2)]}],
+                    "label": "nested-running:assembly-wanted-while-part-is-worked:%s" % kind})
+    # (N4) hull > block in one shop: the hull's survey ends (the hull leaves with its block) while the block is still being welded on the shop's machine
+    for sv, wd in ((2.0, 5.0), (1.0, 3.0)):
+        out.append({"tasks": [{"name": "survey", "work": sv}, {"name": "weld", "work": wd, "nf": True}], "links": [],
+                    "components": [{"name": "hull", "tasks": [0], "children": [1], "space": 1.0}, {"name": "block", "tasks": [1], "space": 1.0}],
+                    "workplaces": [{"name": "shop", "cap": 5.0, "targets": [0, 1], "facilities": [{"name": "machine", "skills": {"weld": 1.0, "survey": 1.0}, "cost": 2.0}]}],
+                    "teams": [{"name": "TM0", "targets": [0, 1], "workers": [{"name": "surveyor", "skills": {"survey": 1.0}, "cost": 1.0}, {"name": "welder", "skills": {"weld": 1.0}, "fskills": {"machine": 1.0}, "cost": 1.0}]}],
+                    "label": "nested-running:hull-leaves-while-block-is-welded:%s:%s" % (sv, wd)})
+    return out
